@@ -13,6 +13,11 @@ const indicesReorderedKey = "$"
 //
 // It effectively reverses the diff algorithm implemented in package diff.
 func Merge(prev interface{}, diff interface{}) (interface{}, error) {
+	// diff.Diff returns nil when nothing changed.
+	if diff == nil {
+		return prev, nil
+	}
+
 	d, ok := diff.(map[string]interface{})
 	if !ok {
 		return mergeReplaced(diff)
